@@ -139,13 +139,14 @@ def gen_number(rng, which, sa, sb, malformed):
     return rho * prod
 
 
-def gen_case(rng, malformed=False):
+def gen_case(rng, malformed=False, long=False):
     qs = gen_quantities(rng, malformed)
     std = [cur_std(x) for x in qs]
     nq = len(qs)
     meas = [i for i, x in enumerate(qs) if x["kind"] in MEASURED]
     ops = []
-    for _ in range(rng.choice([5, 8, 12, 20, 30, 60]) if rng.random() < 0.7 else rng.randint(5, 60)):
+    for _ in range(rng.randint(60, 150) if long else
+                   rng.choice([5, 8, 12, 20, 30, 60]) if rng.random() < 0.7 else rng.randint(5, 60)):
         r = rng.random()
         if r < 0.62:
             if rng.random() < (0.3 if malformed else 0.08):
@@ -540,7 +541,7 @@ def run_cases(ctx, cases, ref=False, with_model=True):
         d["stream:" + ("malformed" if c["malformed"] else "valid")] += 1
         d["quantities:%d" % len(c["qs"])] += 1
         nops = sum(1 for x in c["ops"] if x[0] != "snap")
-        d["ops:" + ("<=8" if nops <= 8 else "9-20" if nops <= 20 else "21-60")] += 1
+        d["ops:" + ("<=8" if nops <= 8 else "9-20" if nops <= 20 else "21-60" if nops <= 60 else "61-150")] += 1
         for x in c["qs"]:
             d["kind:" + x["kind"] + ("" if x["kind"] != "repeated" or x["plain"] else "-with-errors")] += 1
         for op, io in zip(c["ops"], o["outs"]):
@@ -563,11 +564,12 @@ def run_cases(ctx, cases, ref=False, with_model=True):
 
 
 def chunk(sub, n):
-    return run_cases(sub, [gen_case(sub.rng, malformed=(i % 4 == 3)) for i in range(n)])
+    return run_cases(sub, [gen_case(sub.rng, malformed=(i % 4 == 3), long=not sub.quick and i % 5 == 0)
+                           for i in range(n)])
 
 
 def correspond(ctx):
-    return H.run_chunks(ctx, chunk, ctx.n(400, 24000), chunk=200 if ctx.quick else 750)
+    return H.run_chunks(ctx, chunk, ctx.n(400, 60000), chunk=200 if ctx.quick else 750)
 
 
 def search_chunk(sub, n):
